@@ -13,8 +13,10 @@ import (
 	"sync"
 
 	gpb "github.com/openconfig/gnmi/proto/gnmi"
+	"github.com/openconfig/goyang/pkg/yang"
 	"github.com/openconfig/ygot/util"
 	"github.com/openconfig/ygot/ygot"
+	"github.com/openconfig/ygot/ygot/pathtranslate"
 	"github.com/openconfig/ygot/ytypes"
 	"google.golang.org/protobuf/proto"
 
@@ -127,6 +129,21 @@ func treesCmd(args []string) *rep.Result {
 	close(jobs)
 	wg.Wait()
 	return res
+}
+
+// findBelow finds the data node named name below a choice / case entry.
+func findBelow(c *yang.Entry, name string) *yang.Entry {
+	if e, ok := c.Dir[name]; ok && e.Kind != yang.ChoiceEntry && e.Kind != yang.CaseEntry {
+		return e
+	}
+	for _, d := range c.Dir {
+		if d.Kind == yang.ChoiceEntry || d.Kind == yang.CaseEntry {
+			if e := findBelow(d, name); e != nil {
+				return e
+			}
+		}
+	}
+	return nil
 }
 
 // abstractQuery renders a query path for drift notes (abstract, so that notes de-duplicate).
@@ -545,6 +562,75 @@ func runTreeLaw(l *TreeLine, pkg *reg.Pkg, x *conc.Ctx, mode string, res *rep.Re
 		}
 	case "c11":
 		runC11(root, orig, pkg, x, res, tc, sig)
+	case "ptrans":
+		// Extension: pathtranslate.PathTranslator turns a path given as names interleaved with key
+		// values (in the order of the list's key statement) back into the structured path.
+		tree, err := pkg.Unzip()
+		if err != nil {
+			res.InfraErr("unzip: %v", err)
+			return
+		}
+		var entries []*yang.Entry
+		for _, e := range tree {
+			entries = append(entries, e)
+		}
+		pt, err := pathtranslate.NewPathTranslator(entries)
+		if err != nil {
+			res.DriftNote("EXT ptrans: NewPathTranslator fails on the generated schema tree: " + firstLine(err.Error()))
+			return
+		}
+		sch, err := rootSchema(pkg)
+		if err != nil {
+			res.InfraErr("schema: %v", err)
+			return
+		}
+		ns, err := ygot.TogNMINotifications(root, 1, ygot.GNMINotificationsConfig{UsePathElem: true})
+		if err != nil {
+			return
+		}
+		for _, n := range ns {
+			for _, u := range n.Update {
+				full := append(append([]*gpb.PathElem{}, n.GetPrefix().GetElem()...), u.Path.GetElem()...)
+				// flatten with the key order of the schema
+				var flat []string
+				cur := sch
+				ok := true
+				for _, e := range full {
+					nxt := cur.Dir[e.Name]
+					for nxt == nil && ok {
+						// choice / case nodes are not part of data paths
+						found := false
+						for _, c := range cur.Dir {
+							if (c.Kind == yang.ChoiceEntry || c.Kind == yang.CaseEntry) && findBelow(c, e.Name) != nil {
+								nxt = findBelow(c, e.Name)
+								found = true
+							}
+						}
+						if !found {
+							ok = false
+						}
+					}
+					if !ok {
+						break
+					}
+					flat = append(flat, e.Name)
+					for _, k := range strings.Fields(nxt.Key) {
+						flat = append(flat, e.Key[k])
+					}
+					cur = nxt
+				}
+				if !ok {
+					res.Skip(1)
+					continue
+				}
+				got, err := pt.PathElem(flat)
+				res.Count("ptrans_paths", 1)
+				if err != nil || !proto.Equal(&gpb.Path{Elem: got}, &gpb.Path{Elem: full}) {
+					res.Count("ptrans_disagree", 1)
+					res.DriftNote(fmt.Sprintf("EXT ptrans: PathElem(%d names and keys) of a %d-element path gives err=%v / a different path (%s)", len(flat), len(full), err != nil, map[bool]string{true: "compressed", false: "uncompressed"}[pkg.Compressed]))
+				}
+			}
+		}
 	case "query":
 		// Extension beyond the listed properties: GetNode with wildcard keys selects exactly
 		// Match(t, q).  Disagreements are reported as EXT drift notes, never as violations.
